@@ -8,7 +8,7 @@ import (
 	"verif/vkit"
 )
 
-const rule = "workloads of 0-6 handlers (plain/context-aware x sync/async x Once x Sequential x filter x panicking always/on odd events), 1-8 publishes (Publish, live context, already-cancelled context) whose persistence succeeds, is rejected by the store, or has no attempt (unencodable event), optionally a nested publish from a handler. Oracle (recording implementation): one publish/handler/persist start and one complete per publish / handler body entered / append attempt, each complete receives the context returned by its own start, handler and persist contexts descend from the publish context, error flags <=> panic / failed append. Oracle (OpenTelemetry implementation over SDK span recorder, End-counting tracer wrapper, manual metric reader): started == ended, each span ended exactly once, handler and persist spans are children of a publish span, status Error <=> panic/failure, the five counters equal the harness's own counts. Non-trivial = a panic, a skipped handler or a failed append with >=2 handlers."
+const rule = "workloads of 0-6 handlers (plain/context-aware x sync/async x Once x Sequential x filter x panicking always/on odd events), optionally one synchronous handler that cancels the publish context while async deliveries of the same publish are still queued, 1-8 publishes (Publish, live context, already-cancelled context) whose persistence succeeds, is rejected by the store, or has no attempt (unencodable event), optionally a nested publish from a handler. Oracle (recording implementation): one publish/handler/persist start and one complete per publish / handler body entered / append attempt, each complete receives the context returned by its own start, handler and persist contexts descend from the publish context, error flags <=> panic / failed append. Oracle (OpenTelemetry implementation over SDK span recorder, End-counting tracer wrapper, manual metric reader): started == ended, each span ended exactly once, handler and persist spans are children of a publish span, status Error <=> panic/failure, the five counters equal the harness's own counts. Non-trivial = a panic, a skipped handler or a failed append with >=2 handlers."
 
 var collRec = vkit.NewCollector("C20", "TestRecording", rule)
 var collOTel = vkit.NewCollector("C20", "TestOTel", rule)
